@@ -38,7 +38,7 @@ from hpstatic.poly import Canon
 from hpstatic.terms import (sym, intern, show, subterms, calls_in, TRUE, FALSE,
                             NONE, atoms_of, kw, num)
 from hpstatic.xrnorm import atom_rewrite
-from .common import THEORY, norm_cond
+from .common import THEORY, norm_cond, call_args, term_args
 from hpstatic.logic import select
 
 MUTATION_TARGETS = {'holopy/scattering/interface.py': ['calc_holo', 'calc_intensity', 'calc_field', 'calc_scat_matrix', 'finalize', 'prep_schema', 'scattered_field_to_hologram', 'interpret_theory'], 'holopy/core/metadata.py': ['to_vector', 'dict_to_array', 'update_metadata', 'copy_metadata']}
@@ -423,8 +423,9 @@ def f4_metadata(check, prog):
     res = it.analyze(q)
     for o in res.returns:
         v = o.value
+        ba = term_args(prog, v)
         ok = v[0] == 'call' and v[1] == M + 'copy_metadata' and len(v[2]) >= 2 and \
-            v[2][0] == sym('detector') and kw(v, 'do_coords') == FALSE
+            ba.get('old') == sym('detector') and ba.get('do_coords') == FALSE
         check.require(ok, 'F4-finalize-copies-metadata', 'finalize',
                       'returns copy_metadata(detector, result, do_coords=False)', loc,
                       fail_detail='finalize returns %s' % show(v)[:160])
